@@ -4311,6 +4311,28 @@ type wres =
 | WFail
 | WCancel
 
+(** val slow_write : world -> text -> bytes -> n -> n -> world * wres **)
+
+let slow_write w1 pre bs amt n0 =
+  let t = N.add w1.w_now amt in
+  let w2 =
+    upd_log (upd_now w1 t)
+      (app
+        (s2t (String ((Ascii (false, false, true, false, true, true, true,
+          false)), (String ((Ascii (false, false, false, false, false, true,
+          false, false)), EmptyString))))) (show_N t))
+  in
+  let acc = takeN n0 bs in
+  ((broker_feed
+     (upd_wire
+       (upd_log w2
+         (app pre
+           (app (show_N n0)
+             (app
+               (s2t (String ((Ascii (false, false, false, false, false, true,
+                 false, false)), EmptyString))) (hex acc)))))
+       (app w2.w_wire acc)) acc), (WOk n0))
+
 (** val io_write : bytes -> world -> world * wres **)
 
 let io_write bs w =
@@ -4366,18 +4388,23 @@ let io_write bs w =
                              true, false, true, true, false)), (String
                              ((Ascii (false, false, false, false, true, true,
                              true, false)), EmptyString))))))))))), WCancel)
-                 else let n0 = N.min (N.max amt (Npos XH)) len in
-                      let acc = takeN n0 bs in
-                      ((broker_feed
-                         (upd_wire
-                           (upd_log w1
-                             (app pre
-                               (app (show_N n0)
-                                 (app
-                                   (s2t (String ((Ascii (false, false, false,
-                                     false, false, true, false, false)),
-                                     EmptyString))) (hex acc)))))
-                           (app w1.w_wire acc)) acc), (WOk n0))
+                 else if N.eqb k (Npos (XO (XO XH)))
+                      then slow_write w1 pre bs amt (Npos XH)
+                      else if N.eqb k (Npos (XI (XO XH)))
+                           then slow_write w1 pre bs amt len
+                           else let n0 = N.min (N.max amt (Npos XH)) len in
+                                let acc = takeN n0 bs in
+                                ((broker_feed
+                                   (upd_wire
+                                     (upd_log w1
+                                       (app pre
+                                         (app (show_N n0)
+                                           (app
+                                             (s2t (String ((Ascii (false,
+                                               false, false, false, false,
+                                               true, false, false)),
+                                               EmptyString))) (hex acc)))))
+                                     (app w1.w_wire acc)) acc), (WOk n0))
 
 type flres =
 | FlOk
